@@ -120,8 +120,13 @@ def generate(seed, tier="quick"):
     if prng2.random() < 0.35:
         # the literal replaces an existing one (fix), possibly with non-ASCII text in the old literal / left of it on the line
         flags = "create,fix"
-        for sid, s in sites.items():
-            if s["op"] == "eq" and prng2.random() < 0.7:
+        for k, (sid, s) in enumerate(sites.items()):
+            leaf = leaves[k]
+            if s["op"] == "eq" and ("'" in leaf[1] or '"' in leaf[1]) and prng2.random() < 0.5:
+                # the old literal is the new string with the two quote characters exchanged (same shape, same length, another value)
+                swapped = leaf[1].translate({ord("'"): '"', ord('"'): "'"})
+                s["arg"] = V.expr(place([leaf[0], swapped], s["how"]))
+            elif s["op"] == "eq" and prng2.random() < 0.7:
                 s["arg"] = prng2.choice(['"old"', "'x'", '"日本語"', '"naïve café"', '["ä", "old"]', '{"größe": 1}', "b'old'", '""'])
         for e in events:
             if prng2.random() < 0.4 and sites[e["site"]]["op"] == "eq":
